@@ -12,8 +12,26 @@ INT_MODE = {0: 'zero', 1: 'symmetric', 2: 'periodization', 3: 'constant', 4: 're
 MODE_INT = {v: k for k, v in INT_MODE.items()}
 
 
+import random as _random
+_view_rng = _random.Random(rt.seed() * 7919 + 13)
+
+
 def T(a):
-    return torch.tensor(np.asarray(a, dtype=np.float64), dtype=torch.float64)
+    """float64 tensor with the values of `a`.  About one in five 3-D/4-D tensors is handed over as a
+    NON-CONTIGUOUS view with the same values (transposed storage, or every other element of a larger
+    buffer): the transforms must not care (C16), so every correspondence and oracle doubles as a
+    layout-independence check."""
+    a = np.asarray(a, dtype=np.float64)
+    if a.ndim in (3, 4) and a.size > 1:
+        r = _view_rng.random()
+        if r < 0.10:
+            perm = list(range(a.ndim)); perm[-1], perm[-2] = perm[-2], perm[-1]
+            return torch.tensor(np.ascontiguousarray(a.transpose(perm)), dtype=torch.float64).transpose(-1, -2)
+        if r < 0.18:
+            big = torch.zeros(a.shape[:-1] + (2 * a.shape[-1],), dtype=torch.float64)
+            big[..., ::2] = torch.tensor(a, dtype=torch.float64)
+            return big[..., ::2]
+    return torch.tensor(a, dtype=torch.float64)
 
 
 def N(t):
@@ -212,15 +230,24 @@ def sfb2d(ps, ts):
 
 
 def afb2d_nonsep(ps, ts):
-    (m,) = ps
+    """form: 0 prepared tensor, 1 list of four filters, 2 list of two filters (when both axes share them)"""
+    m, form = ps
     hc0, hc1, hr0, hr1, x = ts
+    if form == 1:
+        return [N(ll().afb2d_nonsep(T(x), [hc0, hc1, hr0, hr1], mode=INT_MODE[m]))]
+    if form == 2 and np.array_equal(hc0, hr0) and np.array_equal(hc1, hr1):
+        return [N(ll().afb2d_nonsep(T(x), (hc0, hc1), mode=INT_MODE[m]))]
     f = ll().prep_filt_afb2d_nonsep(hc0, hc1, hr0, hr1)
     return [N(ll().afb2d_nonsep(T(x), f.to(torch.float64), mode=INT_MODE[m]))]
 
 
 def sfb2d_nonsep(ps, ts):
-    (m,) = ps
+    m, form = ps
     gc0, gc1, gr0, gr1, co = ts
+    if form == 1:
+        return [N(ll().sfb2d_nonsep(T(co), [gc0, gc1, gr0, gr1], mode=INT_MODE[m]))]
+    if form == 2 and np.array_equal(gc0, gr0) and np.array_equal(gc1, gr1):
+        return [N(ll().sfb2d_nonsep(T(co), (gc0, gc1), mode=INT_MODE[m]))]
     f = ll().prep_filt_sfb2d_nonsep(gc0, gc1, gr0, gr1)
     return [N(ll().sfb2d_nonsep(T(co), f.to(torch.float64), mode=INT_MODE[m]))]
 
